@@ -33,8 +33,9 @@ def flag_fact(ctx, f, atom, flag, varnames=None):
 def edge_has_fact(edge, pred):
     if edge.test is None:
         return False
-    if any(pred(atom, pol) for atom, pol in facts_of(edge.test, edge.polarity)):
-        return True
+    for t in edge.tests():
+        if any(pred(atom, pol) for atom, pol in facts_of(t, edge.polarity)):
+            return True
     from ..engine.guards import edge_forces
     return edge_forces(edge, [pred])
 
@@ -52,8 +53,9 @@ def edge_implies_any(edge, preds):
             if (isinstance(atom.op, ast.And) and pol is False) or (isinstance(atom.op, ast.Or) and pol is True):
                 return all(any(holds(a2, p2) for a2, p2 in facts_of(v, pol)) for v in atom.values)
         return False
-    if any(holds(atom, pol) for atom, pol in facts_of(edge.test, edge.polarity)):
-        return True
+    for t in edge.tests():
+        if any(holds(atom, pol) for atom, pol in facts_of(t, edge.polarity)):
+            return True
     from ..engine.guards import edge_forces
     return edge_forces(edge, preds)
 
